@@ -206,6 +206,13 @@ impl Ctx {
                 }
             }
         }
+        if name.contains("::or_default") || name.contains("::take::<") && false {
+            // Entry<'_, K, V, A>: the value type is the second type argument
+            let vty = if name.contains("Entry::<") && targs.len() >= 2 { targs[1] } else { last };
+            if let Some(i) = self.resolve_tm("std::default::Default", "default", &[vty]) {
+                aux.insert("Default::default".into(), json!(self.note_inst(i)));
+            }
+        }
         if name.contains("]>::contains") || name.contains("::dedup") || name.contains("]>::starts_with") || name.contains("]>::ends_with") {
             if let Some(i) = self.resolve_tm("std::cmp::PartialEq", "eq", &[first, first]) {
                 aux.insert("PartialEq::eq".into(), json!(self.note_inst(i)));
